@@ -90,6 +90,16 @@ def inBox : List Nat → List Nat → Bool
   | n :: ns, i :: is => decide (i < n) && inBox ns is
   | _, _ => false
 
+/-- the driver loop shared by every `Drivers/Cnn.lean`: one request line in, one `> response` out -/
+partial def driverLoop (dispatch : List String → Option String) (h : IO.FS.Stream) : IO Unit := do
+  let line ← h.getLine
+  if line.isEmpty then return ()
+  IO.println ("> " ++ (dispatch (tokens line.trimAscii.toString)).getD "!bad-request")
+  driverLoop dispatch h
+
+def runDriver (dispatch : List String → Option String) : IO Unit := do
+  driverLoop dispatch (← IO.getStdin)
+
 def listGetD {α} (l : List α) (i : Nat) (d : α) : α := (l[i]?).getD d
 
 def setAt {α} : List α → Nat → α → List α
